@@ -1080,8 +1080,8 @@ package kapacitor
 //@   opt nonnilrecv=batches
 //@   requires clck != nil && collector != nil
 //@   ensures called(Close)
-//@   guardcall CollectBatch#1: arg0 == b && len(b.Points()) > 0 && diff == time.Duration(clck.Zero() - start)
-//@   guardcall CollectBatch#2: arg0 == b && len(b.Points()) == 0
+//@   guardcall CollectBatch#1: arg0 == b && len(b.Points()) == 0
+//@   guardcall CollectBatch#2: arg0 == b && len(b.Points()) > 0 && diff == time.Duration(clck.Zero() - start)
 //@   loop 1
 //@     modifies gfall(mutated, bool)
 //@     invariant start != time.Time(0) ==> diff == time.Duration(clck.Zero() - start)
@@ -1125,8 +1125,8 @@ package kapacitor
 //@ func (*TaskMaster).forkPoint
 //@   props C02
 //@   requires tm != nil && p != nil && tm.forkStats != nil && forksOK(tm)
-//@   guardcall Collect#1: arg0 == p && !has(tm.forks[key], _k) && _k == name
-//@   guardcall Collect#2: arg0 == p
+//@   guardcall Collect#1: arg0 == p
+//@   guardcall Collect#2: arg0 == p && !has(tm.forks[key], _k) && _k == name
 //@   ensures [subscribed-once] forall n string :: has(old(tm.forks[fkey(p)]), n) ==>
 //@       gfi(old(tm.forks[fkey(p)][n]), got, int) == old(gfi(tm.forks[fkey(p)][n], got, int)) + 1
 //@   ensures [unfiltered-once] forall n string :: has(old(tm.forks[ekey(p)]), n) && !has(old(tm.forks[fkey(p)]), n) ==>
@@ -1224,3 +1224,36 @@ package kapacitor
 //@   ensures !gfi(bp, mutated, bool) && result1 == nil && result0 == callresult(ShallowCopy, 0)
 //@   ensures called(doDeletes) && callarg(doDeletes, 0) == bp.Fields() && callarg(doDeletes, 1) == bp.Tags()
 //@   ensures callarg(SetFields, 0) == callresult(doDeletes, 0) && callarg(SetTags, 0) == callresult(doDeletes, 1)
+
+// ---------------------------------------------------------------- alert.go restore (C08)
+// "restart of tasks whose alert has both an anonymous and a named topic": which level an alert ID
+// resumes at, and how the two topics are reconciled.
+//@ func =(github.com/influxdata/kapacitor/services/alert.Events).EventState
+//@   trusted
+//@   modifies nothing
+//@ func =(github.com/influxdata/kapacitor/services/alert.Events).UpdateEvent
+//@   trusted
+//@   modifies nothing
+//@ func (*AlertNode).hasAnonTopic
+//@   props C08
+//@   pure
+//@   ensures result == (len(n.handlers) > 0)
+//@ func (*AlertNode).hasTopic
+//@   props C08
+//@   pure
+//@   ensures result == (n.topic != "")
+
+// restoreEvent: the ID resumes at the anonymous topic's recorded state when there is one, else at
+// the named topic's, else at OK (zero state). When both topics know the ID at different levels
+// the named topic is updated with the anonymous topic's state; when only the named topic knows
+// it (at a non-OK level) the anonymous topic is updated with that state. A topic whose lookup
+// failed counts as not found.
+//@ func (*AlertNode).restoreEvent
+//@   props C08
+//@   requires n != nil && n.diag != nil && n.et != nil && n.et.tm != nil && n.et.tm.AlertService != nil
+//@   ensures [anon-wins] anonFound ==> result0 == anonTopicState.Level && result1 == anonTopicState.Time
+//@   ensures [else-topic] !anonFound ==> result0 == topicState.Level && result1 == topicState.Time
+//@   ensures [nothing-found-is-ok] !anonFound && !topicFound ==> result0 == 0
+//@   ensures [no-update-when-agreeing] topicState.Level == anonTopicState.Level ==> !called(UpdateEvent)
+//@   guardcall UpdateEvent#1: anonFound && topicFound && topicState.Level != anonTopicState.Level && arg0 == n.topic && arg1 == anonTopicState
+//@   guardcall UpdateEvent#2: topicFound && !anonFound && len(n.handlers) > 0 && topicState.Level != 0 && arg0 == n.anonTopic && arg1 == topicState
